@@ -7,7 +7,7 @@ use crate::frag::{self, FCfg};
 use crate::run::run_finished;
 use oracle::frames::{audio_frame, video_frame, ACodec, VCodec, AAC_RATES};
 use oracle::hist;
-use oracle::model::{AudioCfg, Bytes, Cfg, Op, T};
+use oracle::model::{hex, AudioCfg, Bytes, Cfg, Op, T};
 use oracle::reader::{parse_movie, parse_segment, Class, Movie};
 use oracle::report::{finish, guarded, par_items, Ctx, Fnv, Meta, Tally};
 use serde_json::{json, Value};
@@ -200,9 +200,21 @@ fn judge_av1c_bits(order: (u64, u64), t: &mut Tally) {
         SeqHdr { level: 13, tier: true, op_count: 4, timing: true, decoder_model: true, op_decoder_model: true, ..base.clone() }.normalised(),
     ];
     for (k, h) in headers.iter().enumerate() {
-        for fast in [true, false] {
+        // OBU framings of the same header: plain; with an extension byte; its size as a (legal)
+        // two-byte LEB128; its payload padded with zero bytes to 130 bytes (two-byte size)
+        for (fast, framing) in [(true, 0u8), (false, 0), (true, 1), (false, 2), (true, 3), (false, 3)] {
             t.evaluations += 1;
-            let seq = av1_seq_obu(h);
+            let p = h.payload();
+            let seq = match framing {
+                0 => av1_seq_obu(h),
+                1 => obu(1, true, true, &p),
+                2 => [vec![(1 << 3) | 2, (p.len() as u8 & 0x7f) | 0x80, 0x00], p.clone()].concat(),
+                _ => {
+                    let mut q = p.clone();
+                    q.resize(130, 0);
+                    obu(1, false, true, &q)
+                }
+            };
             let frame = [obu(2, false, true, &[]), seq.clone(), obu(6, false, true, &[0x10, 0x44])].concat();
             let cfg = Cfg::basic(VCodec::Av1, None, fast);
             let ex = run_finished(&cfg, &[Op::WV { pts: T(0.0), data: Bytes::new(frame), key: true }]);
@@ -222,6 +234,68 @@ fn judge_av1c_bits(order: (u64, u64), t: &mut Tally) {
                 }
             } else {
                 t.violation("C19/prog/av1C/missing", (order.0, order.1 + k as u64), || format!("header {h:?}: no av1C record"), || json!({"engine": "E2-c19-av1c"}));
+            }
+        }
+    }
+}
+
+fn judge_ps_frame(cfg: &Cfg, frame: &[u8], what: &str, order: (u64, u64), t: &mut Tally) {
+    t.evaluations += 1;
+    let case = || json!({"engine": "E2-c19-ps", "cfg": cfg, "frame": hex(frame), "what": what});
+    let ex = run_finished(cfg, &[Op::WV { pts: T(0.0), data: Bytes::new(frame.to_vec()), key: true }]);
+    if let Some((i, m)) = ex.panicked() {
+        t.violation("C19/prog/panic", order, || format!("{what}: call {i} panicked: {m}"), case);
+        return;
+    }
+    if !ex.results.iter().all(|r| r.is_ok()) {
+        t.count("ps_header_cases_rejected", 1);
+        return;
+    }
+    t.count("ps_header_cases_accepted", 1);
+    let m = parse_movie(&ex.bytes, "prog");
+    let mut issues: Issues = m.probs.of(&[Class::Spec]).into_iter().map(|p| (p.sig.clone(), p.detail.clone())).collect();
+    issues.extend(value_checks(&m, "prog", cfg.width, cfg.height, 1000, 90000));
+    for (s, d) in issues {
+        t.violation(&format!("C19/{s}"), order, || format!("{what} (fast start {}): {d}", cfg.fast_start), case);
+    }
+}
+
+/// Parameter-set unit headers with every header bit a stream may carry (H.264: nal_ref_idc 0-3
+/// and the forbidden bit; H.265: forbidden bit, layer-id bits, temporal id): the record headers
+/// built around the sets (array headers, counts, lengths, reserved bits) must not depend on them.
+fn judge_ps_headers(order: (u64, u64), t: &mut Tally) {
+    use oracle::frames::{annexb_mode, h264_pps, h264_sps, h265_pps, h265_sps, h265_vps};
+    let mut k = 0u64;
+    let mut run = |codec: VCodec, units: Vec<Vec<u8>>, what: String, t: &mut Tally| {
+        for fast in [true, false] {
+            k += 1;
+            let cfg = Cfg::basic(codec, None, fast);
+            judge_ps_frame(&cfg, &annexb_mode(&units, k as u32), &what, (order.0, order.1 + k), t);
+        }
+    };
+    for sps_h in [0x67u8, 0x47, 0x27, 0x07, 0xe7] {
+        for pps_h in [0x68u8, 0x28, 0x08, 0xe8] {
+            let (mut sps, mut pps) = (h264_sps(0), h264_pps(0));
+            sps[0] = sps_h;
+            pps[0] = pps_h;
+            run(VCodec::H264, vec![sps, pps, vec![0x65, 0x88, 0x84]], format!("H.264 SPS header {sps_h:#04x} PPS header {pps_h:#04x}"), t);
+        }
+    }
+    // (first byte OR-mask, second byte): forbidden bit, nuh_layer_id high bit, layer id low bits, temporal id
+    let variants: [(u8, u8); 6] = [(0x00, 0x01), (0x80, 0x01), (0x01, 0x01), (0x00, 0x09), (0x00, 0x02), (0x81, 0xff)];
+    for (vi, v) in variants.iter().enumerate() {
+        for (si, sv) in variants.iter().enumerate() {
+            for (pi, pv) in variants.iter().enumerate() {
+                // the full product of the first four variants, the rest only on the diagonal
+                if (vi > 3 || si > 3 || pi > 3) && !(vi == si && si == pi) {
+                    continue;
+                }
+                let (mut vps, mut sps, mut pps) = (h265_vps(0), h265_sps(0), h265_pps(0));
+                for (u, x) in [(&mut vps, v), (&mut sps, sv), (&mut pps, pv)] {
+                    u[0] |= x.0;
+                    u[1] = x.1;
+                }
+                run(VCodec::H265, vec![vps, sps, pps, vec![0x26, 0x01, 0xaf, 0x08]], format!("H.265 VPS/SPS/PPS header variants {vi}/{si}/{pi}"), t);
             }
         }
     }
@@ -301,12 +375,13 @@ pub fn check(ctx: &Ctx) -> i32 {
     });
     let mut tally = tally;
     judge_av1c_bits((9_000_000, 0), &mut tally);
+    judge_ps_headers((9_100_000, 0), &mut tally);
     finish(
         ctx,
         &tally,
         Meta {
             level: "exploration",
-            rule: format!("{np} progressive files: the configuration space (4 codecs x {{none, 6 AAC profiles, Opus}} x fast start on/off x 5 metadata shapes) x dimensions {{320x240, 1920x1080, 4096x2160, 65535x65535}} x {{0, 1, 3}} frames{}, plus channels 1-8 (Opus also 9, 16, 255) x the standard sample rates below 65536 Hz for every audio kind; {nf} fragmented configurations (4 codecs x builder/FragmentConfig x dimensions x timescales x start DTS) with their init segment and two media segments. Every fixed-layout header box and configuration record is decoded field by field from ISO/IEC 14496-12/-14/-15 and the AV1 / VP9 / Opus bindings (size, version, flags, reserved bits) av1C bit positions are checked with eleven sequence headers that set every field of its two packed bytes differently (four with 2-4 operating points whose later points carry another level and the opposite tier); and the configured dimensions, timescales, enabled flags, identity matrices, handler types and track IDs are recovered. Distinct by the reader-reduced moov.", if ctx.thorough { "" } else { " (metadata variants thinned in the quick tier)" }),
+            rule: format!("{np} progressive files: the configuration space (4 codecs x {{none, 6 AAC profiles, Opus}} x fast start on/off x 5 metadata shapes) x dimensions {{320x240, 1920x1080, 4096x2160, 65535x65535}} x {{0, 1, 3}} frames{}, plus channels 1-8 (Opus also 9, 16, 255) x the standard sample rates below 65536 Hz for every audio kind; {nf} fragmented configurations (4 codecs x builder/FragmentConfig x dimensions x timescales x start DTS) with their init segment and two media segments. Every fixed-layout header box and configuration record is decoded field by field from ISO/IEC 14496-12/-14/-15 and the AV1 / VP9 / Opus bindings (size, version, flags, reserved bits) av1C bit positions are checked with eleven sequence headers that set every field of its two packed bytes differently, each in four OBU framings (plain, extension byte, two-byte LEB128 size, payload padded to 130 bytes) (four with 2-4 operating points whose later points carry another level and the opposite tier); and the configured dimensions, timescales, enabled flags, identity matrices, handler types and track IDs are recovered. H.264 / H.265 first keyframes whose parameter-set units carry every header-bit variant (nal_ref_idc 0-3, forbidden bit, H.265 layer-id and temporal-id bits; 20 + 67 combinations x both layouts) are muxed and their avcC / hvcC records decoded the same way. Distinct by the reader-reduced moov.", if ctx.thorough { "" } else { " (metadata variants thinned in the quick tier)" }),
             bound: "configuration space as listed; 0/1/3 frames".into(),
             exhaustive: true,
             assumptions: vec!["the reader's field decoders are written from the specifications and are the trusted base".into(), "the optional High-profile extension of avcC is not demanded".into(), "for init segments the movie timescale is compared with the fragment timescale".into()],
@@ -325,6 +400,11 @@ pub fn replay(case: &Value) -> i32 {
         Some("E2-c19-frag") => {
             let fc: FCfg = serde_json::from_value(case["cfg"].clone()).unwrap();
             judge_frag(&fc, (0, 0), &mut t);
+        }
+        Some("E2-c19-ps") => {
+            let cfg: Cfg = serde_json::from_value(case["cfg"].clone()).unwrap();
+            let frame = oracle::model::unhex(case["frame"].as_str().unwrap_or("")).unwrap_or_default();
+            judge_ps_frame(&cfg, &frame, case["what"].as_str().unwrap_or(""), (0, 0), &mut t);
         }
         _ => return 2,
     }
